@@ -37,21 +37,24 @@ TECHNIQUE = "runtime monitoring: format-string round trip at every point of a ta
 def field_names(c):
     """field 'd' may be called like an SQL aggregate column: 'max(d)'; field 'b' may be called 'A' (there is a
     field 'a' too: names that differ only in their case, as in a SQL join)"""
-    return [(c.get('d_alias') or f) if f == 'd' else (c.get('b_alias') or f) if f == 'b' else f for f in T.FIELDS]
+    return [(c.get('d_alias') or f) if f == 'd' else
+            (f if c.get('b_alias') is None else c['b_alias']) if f == 'b' else f for f in T.FIELDS]
 
 
 def alias_fmt(c, fmt):
     """the generated format strings call the 4th field 'd': rename it in the column descriptions"""
     alias, b_alias = c.get('d_alias'), c.get('b_alias')
-    if not (alias or b_alias) or not fmt:
+    if not (alias or b_alias is not None) or not fmt:
         return fmt
     cols, sep, rest = fmt.partition(";")
     out = []
     for col in cols.split(","):
         if alias and col[:1] == 'd' and col[1:2] in ('', '!', ':', '/'):
             col = alias + col[1:]
-        elif b_alias and col[:1] == 'b' and col[1:2] in ('', '!', ':', '/'):
+        elif b_alias is not None and col[:1] == 'b' and col[1:2] in ('', '!', ':', '/'):
             col = b_alias + col[1:]
+            if col == "":
+                col = ":1-999"      # (a bare empty description would mean 'change nothing')
         out.append(col)
     return ",".join(out) + sep + rest
 
@@ -93,15 +96,18 @@ def gen_case(rng):
         fmt2 = rng.choice([";%d:%d" % (rng.randint(0, 3), rng.randint(0, 3)), ";*", fmt2.split(";")[0]])
     remove = rng.sample(T.FIELDS, rng.randint(0, 2))
     d_alias = rng.choice([None, None, None, "max(d)", "d(x)"])
-    b_alias = rng.choice([None, None, None, "A"])
+    b_alias = rng.choice([None, None, None, None, "A", "A", ""])      # ('': a caption row with a blank cell)
     c0 = {'d_alias': d_alias, 'b_alias': b_alias}
     fmt, fmt2 = alias_fmt(c0, fmt), alias_fmt(c0, fmt2)
-    remove = [d_alias if (f == 'd' and d_alias) else b_alias if (f == 'b' and b_alias) else f for f in remove]
+    remove = [d_alias if (f == 'd' and d_alias) else b_alias if (f == 'b' and b_alias is not None) else f
+              for f in remove]
     sibling = T.gen_records(rng, (1, 3, 6)) if rng.random() < 0.4 else None
     if sibling:
         # cells of other lengths than in the first table
         sibling = [tuple((v * 3 if isinstance(v, str) else v) for v in r) for r in sibling]
     shape = rng.choice([None] * 8 + ['namedtuple', 'attr'])
+    if shape and b_alias == "":
+        shape = None
     if shape == 'namedtuple' and (d_alias or b_alias or not recs):
         shape = None
     if shape:
@@ -111,7 +117,7 @@ def gen_case(rng):
         fmt2 = rng.choice([";1:2", ";*", fmt.split(";")[0], fmt.split(";")[0] + ";2:1"])
         known = {col.split(":")[0].split("/")[0].rstrip("!") for col in fmt.split(";")[0].split(",")}
         remove = [f for f in remove if f in known]
-    return dict(b_alias=b_alias, shape=shape, recs=recs, fmt=fmt, lim_arg=lim_arg, fmt2=fmt2, remove=remove, d_alias=d_alias, sibling=sibling,
+    return dict(le_limits=rng.choice([None, None, ";*", ";1:1", ";0:2", ";3:0", ";30:20"]), b_alias=b_alias, shape=shape, recs=recs, fmt=fmt, lim_arg=lim_arg, fmt2=fmt2, remove=remove, d_alias=d_alias, sibling=sibling,
                 header=rng.choice([None, "hdr"]), footer=rng.choice([None, "f", ""]),
                 titles={f: rng.choice(T.TITLES_POOL[f]) for f in T.FIELDS})
 
@@ -124,8 +130,10 @@ def judge(ctx, c, case):
         ctx.violation("table-raises", {"type": type(err).__name__, "msg": str(err)[:200]}, case)
         return
     printed = False
-    for stage in ('fresh', 'printed', 'sibling-from-fmt-obj', 'reformatted', 'printed2', 'columns-removed',
-                  'printed3'):
+    for stage in ('fresh', 'printed', 'sibling-from-fmt-obj', 'limits-edited', 'printed-le', 'reformatted', 'printed2',
+                  'columns-removed', 'printed3'):
+        if stage in ('limits-edited', 'printed-le') and not c.get('le_limits'):
+            continue
         if stage == 'sibling-from-fmt-obj':
             # another table is built from this table's format OBJECT (as ak.mcaller_sql does) on other
             # records and printed; afterwards both tables must still match their own reported formats
@@ -156,6 +164,9 @@ def judge(ctx, c, case):
                 printed = True
             elif stage == 'sibling-from-fmt-obj':
                 pass
+            elif stage == 'limits-edited':
+                # the user takes the reported format (with its '(width)' notes) and edits only the limits
+                t.fmt = str(t.fmt).split(";")[0] + c['le_limits']
             elif stage == 'reformatted':
                 t.fmt = c['fmt2']
             elif stage == 'columns-removed':
